@@ -42,6 +42,18 @@ CHECKS = {
             'refutations for the two pre-fix variants; the 30/2000 file limits; Script.search as a filter of get_names; first-wins de-duplication. Tied to /repo per run: generated on-disk trees, the ordered real walk output compared with the model in Coq; '
             'gitignore parsing, relative expansion, limits, dedupe and search-string splitting driven directly; Project.search/complete_search compared with the known content of the trees.',
             'Coq kernel + vm_compute; os.walk order supplied from os.scandir; the composition inside Project._search_func, dotted search and stub conversion are oracle-only (partial there).'),
+    'C20': ('Coq proof of sys.path composition and settings save/load on a Gallina transcription of Project + vm_compute correspondence with Project/_get_sys_path/get_sys_path and import resolution',
+            'Theorems (22, closed): the composed path has no duplicates, starts with the project directory when smart_sys_path is on, keeps the base entries as an order-preserving sublist, appends added_sys_path then buildout then the '
+            'script\'s ancestor directories strictly inside the project (deepest last), contains nothing else; an import resolves to the first entry on the composed path that holds the module; save/load round-trips the five settings and the path '
+            '(conditions stated; refutation witnesses for the relative-Path cases). Tied to /repo per run: 600 generated configurations x flag combinations through the real Project/get_sys_path, 400 save/load round trips, '
+            '240 project trees with same-named modules under several entries queried through goto/infer/completion, all compared with the model in Coq and with independent oracles (CPython PathFinder).',
+            'Coq kernel + vm_compute; get_default_project discovery is not modelled; paths with .. or // are modelled lexically.'),
+    'C07': ('Coq proof of the tree refactorer, a verified unified-diff applier, the path-rename algebra and the apply file-system effect + vm_compute correspondence on every produced refactoring',
+            'Theorems (15, closed): refactor with an empty map is the identity; everything outside the outermost mapped nodes is byte-identical (decomposition theorem); the diff preamble only adds a final newline; '
+            'a verified applier accepts exactly the hunk lists that transform old into new (sound, complete, functional, mismatching context rejected); changed-file keys and to_path algebra; the FS after apply equals the announced contents under the announced names. '
+            'Tied to /repo per run: ~1400 rename/inline/extract requests on corpus and generated sources (LF/CRLF/CR/mixed, with/without final newline, unicode, form feeds, multi-file projects), 45% applied in scratch dirs: every real diff is parsed and run through the verified applier in Coq, '
+            'the real parso tree + captured node map are serialised into the model and compared with get_new_code(), directory snapshots before/after construction and after apply(), exception contract (RefactoringError / ValueError only).',
+            'Coq kernel + vm_compute; difflib is not trusted (diffs are re-applied by the verified applier); parso\'s RefactoringNormalizer is modelled; under load only the first wave of Coq file cases is evaluated within the time box.'),
 }
 
 NOT_YET = {
